@@ -1,4 +1,5 @@
 """Documents whose signal handlers are generated void programs (gen_expr.VoidGen), and their driver."""
+import re
 from . import cxxrun, exprdoc, gen_expr as ge
 
 # sender id, class, signal, argument types (of the overload carrying the most arguments), C++ signal id in the model
@@ -113,8 +114,21 @@ class CbDoc:
                 text = ge.pr_stmts(body, rng, 0)[0].rstrip(";")
             else:
                 body = g.body(params)
+                if nparams >= 2 and params[-1][1] in (ge.INT, ge.STR, ge.BOOL, ge.DOUBLE, ge.UINT) and rng.random() < 0.5:
+                    # the last parameter is reported first: whatever happens to the ones in front of it, it keeps its position
+                    body = [ge.N("log", ge.VOID, (ge.N("local", params[-1][1], v=params[-1][0]),), v="log")] + body
                 inner = "\n".join(ge.pr_stmts(body, rng, 3))
-                plist = ", ".join("%s: %s" % (n, PARAM_ANNOT[t]) for n, t in params)
+                # a parameter the body never mentions may be spelled `_` (a placeholder is still a parameter: the ones after
+                # it keep their positions)
+                shown = {n: n for n, _ in params}
+                unused = [n for n, _ in params if not re.search(r"\b%s\b" % n, inner)]
+                if unused and rng.random() < 0.5:
+                    # (preferably one that is followed by a parameter the body does use)
+                    names = [n for n, _ in params]
+                    lead = [n for n in unused if any(m not in unused for m in names[names.index(n) + 1:])]
+                    shown[rng.choice(lead or unused)] = "_"
+                    self.features.add("placeholder-parameter")
+                plist = ", ".join("%s: %s" % (shown[n], PARAM_ANNOT[t]) for n, t in params)
                 if form == "block":
                     text = "{\n%s\n        }" % inner
                 elif form == "arrow":
